@@ -30,7 +30,7 @@ from vlib.shrink import shrink_seq
 
 ID = "C19"
 LEVEL = "exploration"
-BUDGET = {"quick": 200, "thorough": 1200}
+BUDGET = {"quick": 300, "thorough": 1200}
 REPO = os.environ.get("VERIF_REPO", "/repo")
 RULE = (
     "case = well-formed text (generated document in a random layout / corpus file / "
@@ -78,6 +78,51 @@ def both_loads(text):
     except Exception as e:
         new = ("raised", type(e).__name__)
     return old, new
+
+
+def bytes_variants(text):
+    """The label as a bytes object: as UTF-8, with image data behind it, in another
+    8-bit encoding, and with a stray undecodable byte in the middle (a degree sign
+    typed on an old system) - both loaders say they take bytes."""
+    try:
+        u = text.encode("utf-8")
+    except UnicodeEncodeError:
+        return
+    yield "utf-8", u
+    yield "utf-8+data", u + b"\xff\x00\xfe"
+    yield "utf-8+newline+data", u + b"\n\x80\x81 more = 1\n"
+    if not text.isascii():
+        try:
+            yield "latin-1", text.encode("latin-1")
+        except UnicodeEncodeError:
+            pass
+    for mark in (b"/*", b"#", b'"', b"=", b"\n"):
+        i = u.find(mark)
+        if i >= 0:
+            yield f"stray-byte-after-{mark.decode()!r}", \
+                u[:i + len(mark)] + b" \xb0 " + u[i + len(mark):]
+    yield "stray-byte-first", b"\xb0" + u
+
+
+def bytes_handover(text):
+    for how, data in bytes_variants(text):
+        r = both_loads(data)
+        if r is None:
+            continue
+        old, new = r
+        STATS["bytes:" + how.split("-after-")[0]] = \
+            STATS.get("bytes:" + how.split("-after-")[0], 0) + 1
+        if old[0] != new[0]:
+            return ("fail", "C19/bytes/load-outcome-differs",
+                    f"{how}: pvl.loads(bytes) -> {old[:2]!r:.80}, pvl.new.loads(bytes) -> "
+                    f"{new[:2]!r:.80}; data={data[:300]!r}")
+        if old[0] == "ok" and not list(old[1].errors):
+            d = nm.diff(structure(old[1], False)[0], structure(new[1], True)[0])
+            if d is not None:
+                return ("fail", "C19/bytes/content-differs",
+                        f"{how}: at {d[0]}: default {d[1]!r} new {d[2]!r}; "
+                        f"data={data[:300]!r}")
+    return None
 
 
 def edit_below_top(m):
@@ -175,6 +220,10 @@ def run_text(text, arbitrary=False):
             return ("fail", "C19/second-plain-load-differs",
                     f"pvl.new.loads(text) again, after the first result was edited below "
                     f"its top level: {pn3[:3]} {nm.diff(so, sn3)}; text={text[:300]!r}")
+    if zlib.crc32(text.encode("utf-8", "surrogatepass")) % 3 == 0 or len(text) < 120:
+        why = bytes_handover(text)
+        if why is not None:
+            return why
     a = enc_outcome(lambda: pvl.dumps(old[1]))
     b = enc_outcome(lambda: pvl.new.dumps(new[1]))
     STATS["dumps:" + a[0]] = STATS.get("dumps:" + a[0], 0) + 1
